@@ -69,14 +69,44 @@ def _sx_fstr(parts):
     return core.fstr(parts)
 
 
+def _sx_getitem(obj, idx):
+    """obj[idx]: a symbolic index into a list/tuple forks into 'in range' (then one
+    path per feasible element) and a single 'out of range' path raising IndexError."""
+    if isinstance(idx, SymInt) and isinstance(obj, (list, tuple)):
+        n = len(obj)
+        c = core.ctx()
+        if c.decide(core.bterm(And(idx >= 0, idx < n))):
+            return obj[c.concretize(idx)]
+        if n and c.decide(core.bterm(And(idx < 0, idx >= -n))):
+            return obj[c.concretize(idx)]
+        raise IndexError("list index out of range")
+    return obj[idx]
+
+
+_LOG_METHODS = {"debug", "info", "warning", "error", "exception", "critical", "log"}
+_LOG_NAMES = {"_LOGGER", "logger", "_logger", "LOGGER"}
+
+
 class _T(ast.NodeTransformer):
     def visit_Call(self, node):
-        self.generic_visit(node)
         f = node.func
+        # logging calls get empty bodies (their arguments are not even evaluated)
+        if (isinstance(f, ast.Attribute) and f.attr in _LOG_METHODS and isinstance(f.value, ast.Name)
+                and f.value.id in _LOG_NAMES):
+            return ast.copy_location(ast.Constant(None), node)
+        self.generic_visit(node)
         if (isinstance(f, ast.Attribute) and isinstance(f.value, ast.Constant)
                 and isinstance(f.value.value, (str, bytes))):
             new = ast.Call(func=ast.Name(id="_sx_cm", ctx=ast.Load()),
                            args=[f.value, ast.Constant(f.attr)] + node.args, keywords=node.keywords)
+            return ast.copy_location(new, node)
+        return node
+
+    def visit_Subscript(self, node):
+        self.generic_visit(node)
+        if isinstance(node.ctx, ast.Load) and not isinstance(node.slice, (ast.Slice, ast.Tuple)):
+            new = ast.Call(func=ast.Name(id="_sx_getitem", ctx=ast.Load()),
+                           args=[node.value, node.slice], keywords=[])
             return ast.copy_location(new, node)
         return node
 
@@ -140,7 +170,7 @@ class _FloatMeta(type):
 
 class sx_float(metaclass=_FloatMeta):
     def __new__(cls, x=0.0):
-        if isinstance(x, SymFloat):
+        if isinstance(x, (SymFloat, core.SymRatio)):
             return x
         if isinstance(x, (SymInt, SymBool)):
             return SymFloat.of(x)
@@ -158,7 +188,7 @@ def sx_isinstance(x, cls):
         if cls is int or cls is sx_int:
             return isinstance(x, (SymInt, SymBool))
         if cls is float or cls is sx_float:
-            return isinstance(x, SymFloat)
+            return isinstance(x, (SymFloat, core.SymRatio))
         if cls is bytes:
             return isinstance(x, SymBytesBase) and not x.is_text
         if cls is str:
@@ -370,9 +400,10 @@ SHIMS = {
     "hex": sx_hex,
     "_sx_cm": _sx_cm,
     "_sx_fstr": _sx_fstr,
+    "_sx_getitem": _sx_getitem,
 }
 SHIM_NAMES = ["struct.pack", "struct.unpack", "len", "int", "float", "isinstance", "range", "hex",
-              "<const>.join", "<const>.format", "f-strings"]
+              "<const>.join", "<const>.format", "f-strings", "list[symbolic index]", "logging calls (empty bodies)"]
 
 
 class _Loader(importlib.machinery.SourceFileLoader):
